@@ -503,6 +503,47 @@ pub fn xpath_query_op(kind: &str, a: &Args) -> Option<Outcome> {
     }
 }
 
+// ------------------------------------------------------------------------------------------------
+// dom::XmlNode::order over every node of a parsed document: keys must be non-zero and pairwise distinct (C14)
+
+pub const ORDER_DOCS: [&str; 4] = [
+    "<r x='1'><a/><?p d?><b>t<![CDATA[c]]><!--k--></b><?q e?></r>",
+    "<?top x?><r/><?tail y?>",
+    "<!DOCTYPE r [<!ENTITY e 'v'>]><r a='&e;'>&e;<?p?></r>",
+    "<r xmlns:n='u' n:a='1'><n:b/></r>",
+];
+
+pub fn dom_order_keys(doc: &str) -> Outcome {
+    use xml_dom::{NamedNodeMap, Node, NodeList};
+    fn walk(n: &xml_dom::XmlNode, out: &mut Vec<(String, usize)>) {
+        out.push((format!("{:?}:{}", n.node_type(), n.node_name()), n.order()));
+        if let Some(attrs) = n.attributes() {
+            for a in attrs.iter() {
+                out.push((format!("Attribute:{}", a.node_name()), a.as_node().order()));
+            }
+        }
+        for c in n.child_nodes().iter() {
+            walk(&c, out);
+        }
+    }
+    let observed = guard(|| {
+        let (_, d) = xml_dom::XmlDocument::from_raw(doc).unwrap();
+        let mut all = vec![];
+        walk(&d.as_node(), &mut all);
+        let mut bad = vec![];
+        for (i, (name, k)) in all.iter().enumerate() {
+            if name.starts_with("DocumentType") || name.starts_with("Entity:") || name.starts_with("Notation") {
+                continue;
+            }
+            if *k == 0 || all.iter().take(i).any(|(_, k2)| k2 == k) {
+                bad.push(format!("{}={}", name, k));
+            }
+        }
+        format!("nodes with a zero or repeated key: {:?}", bad)
+    });
+    Outcome { observed, expected: "nodes with a zero or repeated key: []".into(), note: String::new() }
+}
+
 pub fn f64_grid() -> Vec<String> {
     let mut v: Vec<String> = vec![];
     for x in [
